@@ -9,6 +9,7 @@ mod jsongen;
 mod opseq;
 mod props;
 mod refs;
+mod sched;
 mod tiktoken_data;
 mod vocab;
 
